@@ -1,6 +1,7 @@
 (* C13 property theorems: statements only; every proof is [exact lemma].
    Same LTS as C12 (Gv.C12.Model, repaired code = variant [fixed]); all action lists, all oracles. *)
-From Gv Require Import C12.Model C12.Spec C13.Spec C13.ProofsC13 C13.ProofsCause C13.ProofsIdent C13.ProofsFinal C12.Witness.
+From Gv Require Import C12.Model C12.Spec C13.Spec C12.ProofsBase C12.ProofsC12 C13.ProofsC13 C13.ProofsCause C13.ProofsIdent C13.ProofsFinal C12.Witness.
+From Gv Require C13.ProofsDetach.
 From Coq Require Import List Bool Arith PeanoNat.
 Import ListNotations.
 
@@ -87,6 +88,34 @@ Theorem c13_teardown_has_cause :
     run fixed flt wresf ev_bad hbfail init acts = Some st -> s_removed (subs st s) = true -> cause st s.
 Proof. exact final_teardown_has_cause. Qed.
 Print Assumptions c13_teardown_has_cause.
+
+(* The trigger context is DETACHED from every subscriber's request context: as long as a subscriber is registered,
+   the context of its trigger is live - not cancelled, and no teardown in progress is about to cancel it - after ANY
+   history, in particular after histories in which the request contexts of the other subscribers of that trigger
+   (the one that created it included) were cancelled and those subscribers left.  Does not follow from
+   c13_teardown_has_cause (which is about the removal of subscribers, not about the cancel func of the trigger): it
+   needs the invariant of C13/ProofsDetach.v - a trigger whose cancel func was called or is pending is unregistered. *)
+Theorem c13_live_subscriber_trigger_ctx_live :
+  forall flt wresf ev_bad hbfail acts st s,
+    run fixed flt wresf ev_bad hbfail init acts = Some st -> In s (byid st) ->
+    t_cancelled (trigs st (s_tid (subs st s))) = false /\
+    cnt (is_cancel (s_tid (subs st s))) (threads st) = 0.
+Proof. exact ProofsDetach.live_subscriber_trigger_ctx_live. Qed.
+Print Assumptions c13_live_subscriber_trigger_ctx_live.
+
+(* ... and the cancellation of a subscriber's request context is a step that changes nothing but that subscriber's
+   own flag (read by its own threads only: the select of a synchronous subscriber, its fan-out child, its heartbeat) *)
+Theorem c13_ctx_cancel_is_local :
+  forall flt wresf ev_bad hbfail st s,
+    exec fixed flt wresf ev_bad hbfail st (ICancelCtx s) XNone = Some (st_sub st s (sub_set_ctxc (subs st s)), [], []).
+Proof. exact ProofsDetach.ctx_cancel_step_local. Qed.
+Print Assumptions c13_ctx_cancel_is_local.
+
+Example c13_example_creator_ctx_cancelled :
+  exists st, run fixed flt0 wres0 bad0 hb0 init ProofsDetach.ex_creator_ctx_cancelled = Some st /\
+    s_ctxc (subs st 1) = true /\ s_removed (subs st 1) = true /\ byid st = [2] /\ s_tid (subs st 2) = 0 /\
+    t_cancelled (trigs st 0) = false /\ In (OW 2 (CWrite 8)) (log st) /\ ~ In (OCancel 0) (log st).
+Proof. exact ProofsDetach.ex_creator_ctx_cancelled_proof. Qed.
 
 (* HISTORICAL (variant hist_b: markTriggerInitialized stores and reports outside Resolver.mu):
    a removal between lookup and store leaves TriggerCount at +1 at quiescence. *)
